@@ -48,7 +48,13 @@ def main():
         shutil.rmtree(pristine, ignore_errors=True)
     print(f"demo: without patch rc={without_rc}, with patch rc={with_rc}")
     # (2) unit tests with the patch
-    r = sh("/venv/bin/python -m pytest -q -p no:cacheprovider --timeout=900 --continue-on-collection-errors --junitxml=/var/tmp/seed_junit.xml", wt, timeout=3000)
+    # private TMPDIR: two test classes use fixed names under the system temp dir and collide with concurrent runs
+    import tempfile as _tf
+    tmpd = _tf.mkdtemp(prefix="verif-seed-tmp-", dir="/var/tmp")
+    r = sh("/venv/bin/python -m pytest -q -p no:cacheprovider --timeout=900 --continue-on-collection-errors --junitxml=/var/tmp/seed_junit.xml", wt,
+           env={"TMPDIR": tmpd}, timeout=3000)
+    import shutil as _sh
+    _sh.rmtree(tmpd, ignore_errors=True)
     base = set(json.load(open("/root/.vp/BASELINE.json"))["stable_pass"])
     passed = set()
     for tc in ET.parse("/var/tmp/seed_junit.xml").iter("testcase"):
